@@ -431,5 +431,16 @@ func s35Shapes(thorough bool) []s35Shape {
 			out = append(out, s)
 		}
 	}
+	// pointer_field at the top of its range (offsets derived from it must not
+	// be computed in a byte): the two smallest commands, one descriptor
+	for _, c := range cmds[:2] {
+		for _, ptr := range []int{254, 255} {
+			s := c.s
+			s.pointer = ptr
+			s.descs = descSets["one program-mode descriptor"]
+			s.name = fmt.Sprintf("%s; one program-mode descriptor; pointer_field %d", c.name, ptr)
+			out = append(out, s)
+		}
+	}
 	return out
 }
